@@ -5,6 +5,7 @@ package main
 
 import (
 	"go/token"
+	"go/types"
 	"strings"
 
 	"golang.org/x/tools/go/ssa"
@@ -16,8 +17,9 @@ func c01Query(i ssa.Instruction) (call *ssa.Call, opts ssa.Value, ok bool) {
 	if !isCall {
 		return nil, nil, false
 	}
-	n := calleeName(&call.Call)
-	if !strings.HasPrefix(n, "(*"+apiPkg+".Health).") && !strings.HasPrefix(n, "(*"+apiPkg+".KV).") {
+	if !c01CalleeHas(&call.Call, func(n string) bool {
+		return strings.HasPrefix(n, "(*"+apiPkg+".Health).") || strings.HasPrefix(n, "(*"+apiPkg+".KV).")
+	}) {
 		return nil, nil, false
 	}
 	for _, a := range call.Call.Args {
@@ -148,7 +150,7 @@ func c01AdvancesIn(v ssa.Value, l, outer *loop, from ssa.Value) bool {
 				return false
 			}
 			for k, e := range y.Edges {
-				if l.Body[l.Head.Preds[k]] && derives(e, func(z ssa.Value) bool { return z == from }) {
+				if l.Body[l.Head.Preds[k]] && c01FromReply(e, from) {
 					return true
 				}
 			}
@@ -159,6 +161,52 @@ func c01AdvancesIn(v ssa.Value, l, outer *loop, from ssa.Value) bool {
 		}
 		return false
 	})
+}
+
+// c01FromReply: v derives from the results of instruction from (the query, or the call of a wrapper of it) - and, for a
+// wrapper, the result taken is one into which the wrapper puts something of the reply of its query (a wrapper that hands
+// its own wait index back does not advance anything).
+func c01FromReply(v ssa.Value, from ssa.Value) bool {
+	return derives(v, func(z ssa.Value) bool {
+		if ex, ok := z.(*ssa.Extract); ok && ex.Tuple == from {
+			return c01ResultFromQuery(from, ex.Index)
+		}
+		if z == from {
+			if _, isTuple := from.Type().(*types.Tuple); isTuple {
+				return false
+			}
+			return c01ResultFromQuery(from, -1)
+		}
+		return false
+	})
+}
+
+func c01ResultFromQuery(from ssa.Value, k int) bool {
+	call, ok := from.(*ssa.Call)
+	if !ok || c01IsQueryInstr(call) {
+		return true
+	}
+	sc := call.Call.StaticCallee()
+	if sc == nil || !isRepoFn(sc) || len(unwrap(sc).Blocks) == 0 {
+		return true
+	}
+	isReply := func(z ssa.Value) bool {
+		q, isCall := z.(*ssa.Call)
+		return isCall && c01IsQueryInstr(q)
+	}
+	found := false
+	eachInstr(unwrap(sc), func(i ssa.Instruction) {
+		r, isRet := i.(*ssa.Return)
+		if !isRet || found {
+			return
+		}
+		for j, res := range r.Results {
+			if (k < 0 || j == k) && derives(res, isReply) {
+				found = true
+			}
+		}
+	})
+	return found
 }
 
 // c01CellAdvances: the loaded cell outlives a round and is assigned a value derived from the reply `from`.
@@ -175,7 +223,7 @@ func c01CellAdvances(ld *ssa.UnOp, l, outer *loop, from ssa.Value) bool {
 			continue
 		}
 		for _, st := range t.storesInto(loc.root, loc.path) {
-			if derives(st.Val, func(z ssa.Value) bool { return z == from }) {
+			if c01FromReply(st.Val, from) {
 				return true
 			}
 		}
@@ -356,13 +404,24 @@ func c01WaitParams(f *ssa.Function, depth int) map[int]bool {
 	if f == nil || len(f.Blocks) == 0 || depth > 3 {
 		return out
 	}
-	note := func(v ssa.Value) {
-		if par, ok := c01Strip(v).(*ssa.Parameter); ok && par.Parent() == f {
-			if k := c01ParamIndex(par); k >= 0 {
+	// the index may reach the options through a local variable that another branch overrides (waitIndex := lastIndex;
+	// if poll { waitIndex = 0; sleep }): the parameter is then one edge of a merge
+	var noteD func(v ssa.Value, d int)
+	noteD = func(v ssa.Value, d int) {
+		switch x := c01Strip(v).(type) {
+		case *ssa.Parameter:
+			if k := c01ParamIndex(x); k >= 0 && x.Parent() == f {
 				out[k] = true
+			}
+		case *ssa.Phi:
+			if d < 4 {
+				for _, e := range x.Edges {
+					noteD(e, d+1)
+				}
 			}
 		}
 	}
+	note := func(v ssa.Value) { noteD(v, 0) }
 	eachInstr(f, func(i ssa.Instruction) {
 		if _, q, ok := c01Query(i); ok {
 			for _, ws := range c01WaitSets(q) {
@@ -410,7 +469,83 @@ func c01WrapperPaced(i ssa.Instruction, l *loop) bool {
 			return true
 		}
 	}
+	// the wrapper is given the options themselves (state(q)): the call is the query as far as the loop is concerned
+	if os := c01OptsParams(unwrap(sc), 0); len(os) > 0 {
+		all := true
+		for k := range os {
+			if k >= len(call.Call.Args) || !c01DirectPaced(call, call.Call.Args[k], l) {
+				all = false
+			}
+		}
+		if all {
+			return true
+		}
+	}
 	return c01SelfPaced(unwrap(sc), l, 0)
+}
+
+// c01OptsParams: the *api.QueryOptions parameters of f that f hands unchanged to every query it issues (directly or
+// through such a wrapper): f does not set the WaitIndex itself.
+func c01OptsParams(f *ssa.Function, depth int) map[int]bool {
+	out := map[int]bool{}
+	if f == nil || len(f.Blocks) == 0 || depth > 3 {
+		return out
+	}
+	var parOf func(v ssa.Value, d int) *ssa.Parameter
+	parOf = func(v ssa.Value, d int) *ssa.Parameter {
+		switch x := c01Strip(v).(type) {
+		case *ssa.Parameter:
+			if x.Parent() == f {
+				return x
+			}
+		case *ssa.UnOp:
+			// a parameter spilled to its cell
+			if a, ok := x.X.(*ssa.Alloc); ok && x.Op == token.MUL && d < 3 {
+				if vs := c01StoresInto(a); len(vs) == 1 {
+					return parOf(vs[0], d+1)
+				}
+			}
+		}
+		return nil
+	}
+	clean := true
+	eachInstr(f, func(i ssa.Instruction) {
+		if _, q, ok := c01Query(i); ok {
+			par := parOf(q, 0)
+			if par == nil || len(c01WaitSets(q)) > 0 {
+				clean = false
+				return
+			}
+			out[c01ParamIndex(par)] = true
+			return
+		}
+		call, ok := i.(*ssa.Call)
+		if !ok {
+			return
+		}
+		if sc := call.Call.StaticCallee(); sc != nil && isRepoFn(sc) && unwrap(sc) != f && mayExec(unwrap(sc), c01IsQueryInstr, 0) {
+			inner := c01OptsParams(unwrap(sc), depth+1)
+			if len(inner) == 0 {
+				clean = false
+				return
+			}
+			for k := range inner {
+				var par *ssa.Parameter
+				if k < len(call.Call.Args) {
+					par = parOf(call.Call.Args[k], 0)
+				}
+				if par == nil {
+					clean = false
+					return
+				}
+				out[c01ParamIndex(par)] = true
+			}
+		}
+	})
+	if !clean {
+		return map[int]bool{}
+	}
+	return out
 }
 
 // c01SelfPaced: every blocking query fn issues (itself or through wrappers) is paced without the help of fn's caller.
@@ -510,7 +645,7 @@ func runC01WatchLoops(c *Ctx, rule, pkg string, min int) {
 					what := ""
 					blocksOK := false
 					if qc, q, ok := c01Query(in); ok {
-						what = strings.TrimPrefix(calleeName(&qc.Call), "(*"+apiPkg+".")
+						what = strings.TrimPrefix(c01APIMethod(&qc.Call), "(*"+apiPkg+".")
 						what = "api." + strings.Replace(what, ")", "", 1)
 						blocksOK = c01DirectPaced(qc, q, l)
 					} else if sc := call.Call.StaticCallee(); sc != nil && isRepoFn(sc) && mayExec(unwrap(sc), c01IsQueryInstr, 0) {
